@@ -344,8 +344,13 @@ def judge(prop, tier, seed, runs, meta, t0, floors=None, extra_cov=None):
     known = [k for k in load_known() if k.get("property") == prop]
     violations = []   # (sig, run, viol)
     inconclusive = []
+    foreign = 0
     for r in runs:
         for v in r.viols:
+            # a monitor may serve two properties (C05/C16): only signatures of this property count
+            if not str(v.get("sig", "")).startswith(prop + "/"):
+                foreign += 1
+                continue
             violations.append((v.get("sig", "?"), r, v))
         for s in r.sanitizer_reports:
             sig = "%s/%s/%s/%s" % (prop, s["tool"], s["what"], s["where"])
@@ -462,7 +467,7 @@ def judge(prop, tier, seed, runs, meta, t0, floors=None, extra_cov=None):
                per_monitor=per_monitor,
                not_judged_observations=notes,
                tools=sorted(set((r.variant + ("+" + r.tool if r.tool else "")) for r in runs)),
-               processes=len(runs))
+               processes=len(runs), violations_of_other_properties_ignored=foreign)
     if meta.get("exhaustive_note"):
         cov["exhaustive_subspace"] = meta["exhaustive_note"]
     if extra_cov:
